@@ -4,6 +4,7 @@
 -/
 import Lean.Data.Json
 import ErgoModel.Exec
+import ErgoModel.View
 import ErgoModel.Storage
 open Lean
 namespace Ergo.Wire
@@ -176,5 +177,32 @@ def readJson : Except ReadErr (List Event) → Json
   | .ok evs => Json.mkObj [("events", Json.arr (evs.map eventJson).toArray)]
   | .error (.badLine n) => Json.mkObj [("err", "bad_line"), ("line", n)]
   | .error .tooLong => Json.mkObj [("err", "too_long")]
+
+
+def listItemJson (i : ListItem) : Json :=
+  Json.mkObj [("kind", if i.isEpic then "epic" else "task"), ("id", i.id), ("epic_id", i.epicId), ("state", i.st.toString),
+    ("claimed_by", i.claimedBy), ("title", i.title), ("ready", i.ready), ("blocked", i.blocked), ("has_results", i.hasResults)]
+
+def showItemJson (i : ShowItem) : Json :=
+  Json.mkObj [("id", i.id), ("uuid", i.uuid), ("epic_id", i.epicId), ("state", i.st.toString), ("claimed_by", i.claimedBy),
+    ("claimed_at", jt i.claimedAt), ("created_at", jt i.createdAt), ("updated_at", jt i.updatedAt),
+    ("deps", Json.arr (i.deps.map Json.str).toArray), ("rdeps", Json.arr (i.rdeps.map Json.str).toArray),
+    ("title", i.title), ("body", i.body), ("results", Json.arr (i.results.map resultJson).toArray)]
+
+def edgesJson (es : List (Id × Id)) : Json := Json.arr (es.map fun e => Json.arr #[e.1, e.2]).toArray
+
+def replyJson : Reply → Json
+  | .created isEpic id uuid epicId st title body cat =>
+    Json.mkObj [("k", "created"), ("kind", if isEpic then "epic" else "task"), ("id", id), ("uuid", uuid), ("epic_id", epicId),
+      ("state", st.toString), ("title", title), ("body", body), ("created_at", jt cat)]
+  | .set id fields st cb => Json.mkObj [("k", "set"), ("id", id), ("updated_fields", Json.arr (fields.map Json.str).toArray), ("state", st.toString), ("claimed_by", cb)]
+  | .claimed id epic st title body agent cat =>
+    Json.mkObj [("k", "claimed"), ("id", id), ("epic", epic), ("state", st.toString), ("title", title), ("body", body), ("agent_id", agent), ("claimed_at", jt cat)]
+  | .noReady => Json.mkObj [("k", "no_ready")]
+  | .sequence un es => Json.mkObj [("k", "sequence"), ("action", if un then "unlink" else "link"), ("edges", edgesJson es)]
+  | .pruned dry ids => Json.mkObj [("k", "pruned"), ("dry_run", dry), ("ids", Json.arr ((sortIds ids).map Json.str).toArray)]
+  | .compacted => Json.mkObj [("k", "compacted")]
+  | .planned o => Json.mkObj [("k", "planned"), ("epic_id", o.epicId), ("epic_uuid", o.epicUuid), ("title", o.title), ("created_at", jt o.createdAt),
+      ("tasks", Json.arr (o.tasks.map fun t => Json.arr #[t.1, t.2]).toArray), ("edges", edgesJson o.edges)]
 
 end Ergo.Wire
